@@ -190,6 +190,58 @@ class System(ManagerSystem):
                 m.verify()
         except Exception as e:  # noqa
             issues.append(self.issue("violation", hist, op, f"verify() raised {type(e).__name__}: {e}"))
+        if not issues:
+            issues.extend(self.failed_replacement(ns, hist, op))
+        return issues
+
+    def failed_replacement(self, ns, hist, op):
+        """a replacement that FAILS: the new expression cannot be evaluated (one operand does not exist).  Which of the two
+        definitions the manager keeps is not prescribed here; whatever tasks it then holds, its indices must follow from them and
+        its self-check must pass, and once that location is given a plain value nothing may be left of either definition"""
+        import io
+        import contextlib
+        issues = []
+        full = tuple(hist) + (self.universe.index(op),)
+        leaves = list(self.cfg.get("leaves") or self.world["leaves"])
+        fk = mgr.task_regions(ns)
+        cands = [L for L in leaves if ("E", L) in ns.tasks][:1] + [L for L in leaves if ("E", L) not in ns.tasks and not any(T.overlap(L, x) for x in fk)][:1]
+        for L in cands:
+            others = [X for X in leaves if X != L and not T.overlap(X, L)]
+            if not others or ns.frozen:
+                continue
+            miss = ("bin", "add", ("loc", mgr.P("zz")), ("loc", others[-1]))
+            w2 = self.replay(full)
+            try:
+                w2.apply(("def", L, miss))
+                continue          # (no failure: nothing to check here)
+            except Exception:  # noqa
+                pass
+            prog = f"{T.path_str(L)} = <expression reading the missing s['zz']> (raises)"
+            probs = check_indices(w2.m, "")
+            if probs:
+                issues.append(self.issue("violation", hist, op, f"after the failed replacement {prog}, an index does not follow from the tasks the "
+                                                                f"manager holds: {probs[0]}", {"all": probs[:4]}))
+                return issues
+            try:
+                with contextlib.redirect_stdout(io.StringIO()):
+                    w2.m.verify()
+            except Exception as e:  # noqa
+                issues.append(self.issue("violation", hist, op, f"after the failed replacement {prog}, verify() raised {type(e).__name__}: {e}"))
+                return issues
+            try:
+                w2.apply(("set", L, 3))
+                for X in leaves:
+                    if ("E", X) not in ns.tasks and not any(T.overlap(X, y) for y in fk):
+                        w2.apply(("set", X, 7))
+            except Exception as e:  # noqa
+                issues.append(self.issue("violation", hist, op, f"after the failed replacement {prog} and a plain value assigned to that location, "
+                                                                f"a later assignment raised {type(e).__name__}: {e}"))
+                return issues
+            probs = check_indices(w2.m, "")
+            if probs:
+                issues.append(self.issue("violation", hist, op, f"after the failed replacement {prog} and a plain value assigned to that location: "
+                                                                f"{probs[0]}"))
+                return issues
         return issues
 
 
